@@ -11,5 +11,13 @@ Spec == Init /\ [][Next]_v_row
 Invertible == v_row > 0 =>
    LET pr == ParamTab[v_row] IN
    RankOfMatrix(AMatrix(pr, [k \in 1..pr.Kp |-> k - 1]), pr.L, pr.L) = pr.L
+\* the regrouped LDPC certificate equals the literal RFC loops, on pseudo-random and on solution vectors
+LdpcFormsAgree == v_row > 0 =>
+   LET pr == ParamTab[v_row] IN
+   \A sd \in 1..4 : LET C == [i \in 1..pr.L |-> (i * (37 + 2 * sd) + (i \div 7) * sd + sd) % 256] IN
+                     LdpcHolds(pr, C) = LdpcHoldsRef(pr, C)
+LdpcSolutionOk == v_row > 0 =>
+   LET pr == ParamTab[v_row]  C == SolveC(pr.Kp, [i \in 1..pr.Kp |-> (i * 11 + 3) % 256]) IN
+   LdpcHolds(pr, C) /\ LdpcHoldsRef(pr, C) /\ HdpcHolds(pr, C)
 ParamsSane == v_row > 0 => LET pr == ParamTab[v_row] IN pr.P >= pr.H /\ pr.B >= 1 /\ pr.U >= 0
 =============================================================================
